@@ -776,6 +776,9 @@ class Exec:
             if e[1] == "dynamic_cast":
                 return ("obj", "projection") if inner == ("sym", "output.projection.implementation.get()") else \
                     self.err(line, "dynamic_cast of %r" % (inner,))
+            if re.fullmatch(r"(float|int|short|char|long|unsigned.*|std::int\w+|std::uint\w+|tapkee::IndexType)", e[2].strip()) \
+                    and (inner[0] == "value" and inner[2] == "dbl" or inner[0] == "lit" and inner[1] == "dbl"):
+                self.err(line, "narrowing %s<%s> of a double option value" % (e[1], e[2]))
             return inner
         if k == "index":
             base = self.ev(e[1], line)
@@ -1060,6 +1063,9 @@ class Exec:
             self.set_var(name, ("app", base, vals), True)
             return
         v = self.ev(init, line)
+        if base in ("float", "int", "short", "char", "long", "unsigned", "unsigned int", "tapkee::IndexType") and \
+                (v[0] == "value" and v[2] == "dbl" or v[0] == "lit" and v[1] == "dbl"):
+            self.err(line, "`%s %s` narrows a double option value" % (ty, name))
         if v[0] == "app" and v[1] == "read_data":
             st, delim = v[2]
             if st[0] != "stream" or st[1] != "in":
@@ -1067,6 +1073,31 @@ class Exec:
             self.steps.append(("readData", self.path_cond(), "input", st[2], self.as_expr(delim, line)))
             v = ("obj", "input")
         self.set_var(name, v, True)
+
+    def slot(self, v):
+        """canonical descriptor of what reaches a callback slot of the embed chain:
+        `kernel(input)` = eigen_kernel_callback over the input matrix;
+        `precomputed_distance[needs_distance ? distance(input)]` = precomputed_distance_callback over the matrix that
+        is filled from eigen_distance_callback(input) iff method.needs_distance (else empty).
+        Anything of another structure falls back to its full text (and then differs from the spec)."""
+        def direct(x):
+            if x[0] == "app" and len(x[2]) == 1 and x[2][0] == ("obj", "input"):
+                m = re.fullmatch(r"(?:tapkee::)?eigen_(kernel|distance|features)_callback", x[1])
+                if m:
+                    return "%s(input)" % m.group(1)
+            return None
+        d = direct(v)
+        if d:
+            return d
+        if v[0] == "app" and len(v[2]) == 1:
+            m = re.fullmatch(r"(?:tapkee::)?precomputed_(kernel|distance)_callback", v[1])
+            M = v[2][0]
+            if m and M[0] == "ite" and M[1][0] == "field" and M[1][1][0] == "lookup" and \
+                    M[1][1][1] == "DIMENSION_REDUCTION_METHODS" and M[3] == ("app", "empty_matrix", []) and \
+                    M[2][0] == "app" and M[2][1] == "matrix_from_callback" and len(M[2][2]) == 2 and \
+                    M[2][2][0] == ("sym", "input.cols()") and direct(M[2][2][1]):
+                return "precomputed_%s[%s ? %s]" % (m.group(1), M[1][2], direct(M[2][2][1]))
+        return self.show(v)
 
     def show(self, v):
         """readable text of an executor value (for the callback columns of the embed step)"""
@@ -1203,11 +1234,11 @@ class Exec:
         data = ""
         for name, args in chain:
             if name in ("withKernel", "withDistance", "withFeatures") and len(args) == 1:
-                cb[name[4:].lower()] = self.show(self.ev(args[0], line))
+                cb[name[4:].lower()] = self.slot(self.ev(args[0], line))
             elif name == "embedUsing" and len(args) == 1:
                 data = self.show(self.ev(args[0], line))
                 for c in cb:
-                    cb[c] = cb[c] or "eigen_%s_callback(%s)" % (c, data)
+                    cb[c] = cb[c] or "%s(%s)" % (c, data)
             elif name == "embedRange" and len(args) == 2:
                 b = self.ev(args[0], line)
                 data = self.show(b[2][0]) if b[0] == "app" and b[1] == ".begin" else self.err(line, "embedRange argument")
